@@ -197,15 +197,28 @@ def rule_link_failures(chk, rid):
     fn = repo.func(CTX, "Context.evaluate_parameter")
     cfg = CFG(fn)
     gets = [c for c in calls_in(fn, tail="get") if call_recv(c) == "value"]
-    chk.floor(rid, len(gets), 2, "value.get() uses")
+    chk.floor(rid, len(gets), 1, "value.get() uses")
+    from ..lib import literals_of_test
+    # edges on which `value.is_error` is known to be False / True
+    ok_edges = [(t.id, lab) for t in cfg.nodes if t.kind == "test" for lab in ("T", "F")
+                if any(x[1] == "value.is_error" and x[2] is False for x in literals_of_test(t.ast, lab))]
+    err_edges = [(t.id, lab) for t in cfg.nodes if t.kind == "test" for lab in ("T", "F")
+                 if any(x[1] == "value.is_error" and x[2] is True for x in literals_of_test(t.ast, lab))]
+    evals = [cfg.node_of(c) for c in calls_in(fn) if call_recv(c) == "self" and call_tail(c) in ("evaluate", "apply")]
+    chk.floor(rid, len(evals), 2, "link evaluations")
     for g in gets:
-        lits = dominating_literals(cfg, cfg.node_of(g))
-        tn = [t for _, txt, pol, t in lits if txt == "value.is_error" and pol is False]
-        ok = bool(tn)
-        if ok:
-            tsucc = [mm for mm, lab in cfg.succ[tn[0]] if lab == "T"][0]
-            r = cfg.reachable(tsucc)
-            ok = cfg.exit not in r and any(cfg.nodes[x].kind == "raise" and "EvaluationException" in U(cfg.nodes[x].ast) for x in r)
+        gn = cfg.node_of(g)
+        # from every sub-evaluation that can reach this use, each path passes an edge that established `not value.is_error`
+        srcs = [e for e in evals if cfg.can_reach(e, gn)]
+        ok = bool(srcs) and all(gn not in cfg.reachable(e, avoid_edges=ok_edges) or e == gn for e in srcs)
+        # ... and every error edge ends in raise EvaluationException
+        for tid, lab in err_edges:
+            succ = [mm for mm, l2 in cfg.succ[tid] if l2 == lab]
+            if succ and cfg.can_reach(tid, gn) or True:
+                r = cfg.reachable(succ[0]) if succ else set()
+                if succ and not (cfg.exit not in r and any(cfg.nodes[x].kind == "raise" and "EvaluationException" in U(cfg.nodes[x].ast) for x in r)):
+                    ok = False
+        ok = ok and bool(err_edges)
         chk.ob(rid, f"{CTX}.Context.evaluate_parameter", ok, "value.get() is reached only for a successful sub-evaluation; the error "
                "branch raises EvaluationException" if ok else "a failed link evaluation can flow into value.get()/the command", g, m, key="link-guard")
 
